@@ -174,6 +174,9 @@ def corruptions(name, key, conv):
         out.append(("drop", conv[:i] + conv[i + 1:]))
         if n > 1:
             out.append(("dup", conv[:i] + [conv[(i + 1) % n]] + conv[i + 1:]))
+            # the same function twice, once with the opposite sign: a duplicate as much as the plain one
+            other = conv[(i + 1) % n]
+            out.append(("signed-dup", conv[:i] + [other[1:] if other.startswith("-") else "-" + other] + conv[i + 1:]))
         foreign = "x" * (l + 1) if kind == "c" else f"c{l + 1}"
         out.append(("foreign", conv[:i] + [foreign] + conv[i + 1:]))
         flip = f"c{l}" if kind == "c" else "x" * l
